@@ -119,6 +119,44 @@ fn pair(db: &TestDb) -> u8 {
     run_body(db, "pair", None)
 }
 
+#[derive(Debug, Clone, PartialEq, Eq)]
+pub struct Tup(pub u8, pub String);
+
+/// A value with an interior that `ref_maker` points into.
+#[memo(raw)]
+fn tup(db: &TestDb) -> Tup {
+    let v = run_body(db, "tup", None);
+    Tup(v, format!("s{v}"))
+}
+
+/// value of an interned "s<digit>" string; 255 for anything else (a dangling MemoRef may read garbage:
+/// that is an observation, not a harness failure)
+fn str_value(s: &str) -> u8 {
+    s.get(1..).and_then(|d| d.parse().ok()).unwrap_or(255)
+}
+
+/// Body "refMaker" = MkRef("tup"): `db.intern_ref(&tup(db).1)` (the scenario of intern_ref's doc comment)
+#[memo(raw)]
+fn ref_maker(db: &TestDb) -> MemoRef<String> {
+    log(json!({"e": "enter", "n": "refMaker"}));
+    let t: &Tup = tup(db).lookup(db);
+    log(json!({"e": "ret", "n": "tup", "v": t.0}));
+    let r = db.intern_ref(&t.1);
+    log(json!({"e": "exit", "n": "refMaker", "v": t.0, "ins": [["fn", "tup", t.0]]}));
+    r
+}
+
+/// Body "refUser" = Add(Deref("refMaker"), Const(1))
+#[memo(raw)]
+fn ref_user(db: &TestDb) -> u8 {
+    log(json!({"e": "enter", "n": "refUser"}));
+    let r: &MemoRef<String> = ref_maker(db).lookup(db);
+    let v = str_value(r.lookup_tracked(db));
+    log(json!({"e": "ret", "n": "refMaker", "v": v}));
+    log(json!({"e": "exit", "n": "refUser", "v": v + 1, "ins": [["fn", "refMaker", v]]}));
+    v + 1
+}
+
 mod a {
     use super::*;
     #[memo(raw)]
@@ -135,8 +173,46 @@ mod b {
     }
 }
 
+#[derive(Clone, Copy)]
+enum Ref {
+    U8(MemoRef<u8>),
+    Tup(MemoRef<Tup>),
+    Str(MemoRef<MemoRef<String>>),
+}
+
+impl Ref {
+    fn read(&self, db: &TestDb) -> u8 {
+        match self {
+            Ref::U8(r) => *r.lookup(db),
+            Ref::Tup(r) => r.lookup(db).0,
+            Ref::Str(r) => str_value(r.lookup(db).lookup(db)),
+        }
+    }
+    fn retain(&self, db: &TestDb) -> RetainedQuery {
+        match self {
+            Ref::U8(r) => retain(db, *r),
+            Ref::Tup(r) => retain(db, *r),
+            Ref::Str(r) => retain(db, *r),
+        }
+    }
+    fn as_u8(&self) -> Option<MemoRef<u8>> {
+        if let Ref::U8(r) = self { Some(*r) } else { None }
+    }
+}
+
 /// Calls the memoized function for node `n`; returns (value, MemoRef if the function is raw).
-fn call_node(db: &TestDb, n: &str, memo_arg: Option<MemoRef<u8>>) -> (u8, Option<MemoRef<u8>>) {
+fn call_node(db: &TestDb, n: &str, memo_arg: Option<MemoRef<u8>>) -> (u8, Option<Ref>) {
+    match n {
+        "tup" => {
+            let r = Ref::Tup(tup(db));
+            return (r.read(db), Some(r));
+        }
+        "refMaker" => {
+            let r = Ref::Str(ref_maker(db));
+            return (r.read(db), Some(r));
+        }
+        _ => {}
+    }
     let r: MemoRef<u8> = match n {
         "leaf:A" | "leaf:B" | "leaf:D" => leaf(db, sid(&n[5..])),
         "single" => single(db),
@@ -150,9 +226,10 @@ fn call_node(db: &TestDb, n: &str, memo_arg: Option<MemoRef<u8>>) -> (u8, Option
         "pair" => return (*pair(db), None),
         "twin:a" => a::twin(db),
         "twin:b" => b::twin(db),
+        "refUser" => ref_user(db),
         _ => panic!("harness: unknown node {n}"),
     };
-    (*r.lookup(db), Some(r))
+    (*r.lookup(db), Some(Ref::U8(r)))
 }
 
 // ---- the body interpreter -------------------------------------------------------------------
@@ -176,24 +253,26 @@ fn eval(db: &TestDb, e: &Value, f: &mut Frame) -> i64 {
         "const" => e["v"].as_i64().unwrap(),
         "src" => {
             let k = e["k"].as_str().unwrap();
-            f.ins.push(json!(["src", k]));
-            db.get(sid(k)).v as i64
+            let v = db.get(sid(k)).v as i64;
+            f.ins.push(json!(["src", k, v]));
+            v
         }
         "sing" => {
-            f.ins.push(json!(["src", "S"]));
-            db.get_singleton::<Sing>().map(|s| s.v as i64).unwrap_or(0)
+            let seen = db.get_singleton::<Sing>().map(|s| s.v as i64);
+            f.ins.push(json!(["src", "S", seen.unwrap_or(-1)]));
+            seen.unwrap_or(0)
         }
         "fn" => {
             let m = e["m"].as_str().unwrap();
             let (v, _) = call_node(db, m, None);
-            f.ins.push(json!(["fn", m]));
+            f.ins.push(json!(["fn", m, v]));
             log(json!({"e": "ret", "n": m, "v": v}));
             v as i64
         }
         "look" => {
             let m = e["m"].as_str().unwrap();
             let v = *f.memo_arg.expect("harness: look without MemoRef").lookup_tracked(db);
-            f.ins.push(json!(["fn", m]));
+            f.ins.push(json!(["fn", m, v]));
             log(json!({"e": "ret", "n": m, "v": v}));
             v as i64
         }
@@ -211,13 +290,14 @@ fn eval(db: &TestDb, e: &Value, f: &mut Frame) -> i64 {
             }
         }
         "tsum" => {
-            f.ins.push(json!(["src", "C"]));
+            f.ins.push(json!(["src", "C", 0]));
             let mut sum = 0i64;
             let ids: Vec<(&'static str, SourceId<Inp>)> =
                 db.get_map().tracked().0.iter().map(|(k, id)| (*k, *id)).collect();
             for (k, id) in ids {
-                f.ins.push(json!(["src", k]));
-                sum += db.get(id).v as i64;
+                let v = db.get(id).v as i64;
+                f.ins.push(json!(["src", k, v]));
+                sum += v;
             }
             sum
         }
@@ -233,7 +313,7 @@ fn prelude(n: &str) -> Vec<&'static str> {
 
 struct Session {
     db: TestDb,
-    refs: HashMap<String, MemoRef<u8>>,
+    refs: HashMap<String, Ref>,
     retained: HashMap<String, Vec<RetainedQuery>>,
 }
 
@@ -259,7 +339,7 @@ impl Session {
             if let Some(r) = r {
                 self.refs.insert(p.to_string(), r);
             }
-            arg = r;
+            arg = r.and_then(|r| r.as_u8());
         }
         log(json!({"e": "ucall", "n": n}));
         let (v, r) = call_node(&self.db, n, arg);
@@ -312,7 +392,7 @@ impl Session {
                     let n = op["n"].as_str().unwrap();
                     let v = self.user_call(n);
                     let r = *self.refs.get(n).expect("harness: retain needs a raw node");
-                    let rq = retain(&self.db, r);
+                    let rq = r.retain(&self.db);
                     self.retained.entry(n.to_string()).or_default().push(rq);
                     Some(v as i64)
                 }
@@ -329,7 +409,7 @@ impl Session {
                 "lookup" => {
                     let n = op["n"].as_str().unwrap();
                     let r = *self.refs.get(n).expect("harness: lookup needs a MemoRef");
-                    Some(*r.lookup(&self.db) as i64)
+                    Some(r.read(&self.db) as i64)
                 }
                 other => panic!("harness: unknown op {other}"),
             }
@@ -377,10 +457,16 @@ impl Drop for Session {
 
 fn main() {
     std::panic::set_hook(Box::new(|_| {}));
+    if std::env::var("H_PICO_TRACE").is_ok() {
+        tracing_subscriber::fmt().with_max_level(tracing::Level::TRACE).with_writer(std::io::stderr).without_time().init();
+    }
     let stdin = std::io::stdin();
     let stdout = std::io::stdout();
     let mut out = std::io::BufWriter::new(stdout.lock());
     let mut capacity = 1usize;
+    // --markers: announce every replay / operation before running it, so that a driver can attribute a
+    // process death or a memory-checker abort (valgrind --exit-on-first-error) to the operation in progress
+    let markers = std::env::args().any(|a| a == "--markers");
     for line in stdin.lock().lines() {
         let line = line.unwrap();
         if line.trim().is_empty() {
@@ -400,7 +486,11 @@ fn main() {
         }
         let mut sess = Session::new(capacity);
         let mut obs = vec![];
-        for op in v["ops"].as_array().unwrap() {
+        for (opi, op) in v["ops"].as_array().unwrap().iter().enumerate() {
+            if markers {
+                writeln!(out, "{}", json!({"begin": v.get("id").cloned().unwrap_or(Value::Null), "op": opi})).unwrap();
+                out.flush().unwrap();
+            }
             let o = sess.step(op);
             let dead = o["res"]["t"] == "panic";
             obs.push(o);
@@ -415,6 +505,9 @@ fn main() {
             res["id"] = id.clone();
         }
         writeln!(out, "{}", res).unwrap();
+        if markers {
+            out.flush().unwrap();
+        }
     }
     out.flush().unwrap();
 }
